@@ -137,6 +137,23 @@ theorem by_ts_refused (f : List Rat → Rat) (l : List Sample) (k : Nat) :
 example : (downBy (fun l => l.sum) (.cont ⟨100, 10, [1, 2, 3, 4, 5, 6, 7]⟩) 3).toOption.map (·.samples)
     = some [(110, 6), (140, 15)] := by decide +kernel
 
+/-- Long channels are handed to the model as a rule (`sample i = v i`, `contOf`); the model then answers
+    a window of the downsampled channel from the rule alone.  That window IS the slice `[i0 : i0 + cnt]`
+    of the full answer of `downsampled_by(k)` (to which `by_spec` applies), and the reported number of
+    samples `n / k` is the length of the full answer. -/
+theorem by_window_spec (f : List Rat → Rat) (start dt : Int) (n : Nat) (v : Nat → Rat) (k i0 cnt : Nat)
+    (hdt : 0 < dt) (hk : 0 < k) :
+    ∃ r, downBy f (.cont (contOf start dt n v)) k = .ok r ∧ r.dt = dt * k ∧ r.samples.length = n / k ∧
+      byWindow f start dt n v k i0 cnt = (r.samples.drop i0).take cnt :=
+  byWindow_eq f start dt n v k i0 cnt hdt hk
+
+/-- Non-vacuity: 23 samples `v i = i`, factor 5, window of two samples from index 2 on / beyond the end. -/
+example : byWindow Reduce.mean.apply 100 10 23 (fun i => (i : Rat)) 5 2 2 = [(220, 12), (270, 17)] := by decide +kernel
+example : byWindow Reduce.mean.apply 100 10 23 (fun i => (i : Rat)) 5 3 4 = [(270, 17)] := by decide +kernel
+example : (Rule.mk 3 5 4 7 2 8).val 7 = 3 / 8 := by decide +kernel
+example : byWindow Reduce.sum.apply 100 10 23 (Rule.mk 3 5 4 7 2 8).val 5 2 2 = [(220, 1 / 2), (270, 1 / 2)] := by
+  decide +kernel
+
 /-! ## `downsampled_to` (as the code is: edges `np.arange(start, stop, step)`, finding F3) -/
 
 /-- Once the target step is settled (`targetStep`: upsampling guard, `safe`/`ceil`/`force`),
@@ -247,6 +264,18 @@ theorem to_single_block_refused (f : List Rat → Rat) (c : Cont) (k : Nat) (m :
     (hdt : 0 < c.dt) (hk : 0 < k) (hn : c.data.length ≤ k) :
     downTo f (.cont c) ((k : Int) * c.dt) (some m) wh = .error .value :=
   to_cont_short f c k m wh hdt hk hn
+
+/-- The window the model answers for `downsampled_to` (step `k·dt`, `where="center"`, any method) of a
+    long channel given by a rule is the slice `[i0 : i0 + cnt]` of the full answer of `downTo`, which
+    has `toCount n k` samples (`n / k`, one fewer when `n` is a multiple of `k`: finding F3). -/
+theorem to_window_spec (f : List Rat → Rat) (start dt : Int) (n : Nat) (v : Nat → Rat) (k i0 cnt : Nat)
+    (m : Method) (hdt : 0 < dt) (hk : 0 < k) (hn : k < n) :
+    ∃ out, downTo f (.cont (contOf start dt n v)) ((k : Int) * dt) (some m) (some true) = .ok out ∧
+      out.length = toCount n k ∧ toWindow f start dt n v k i0 cnt = (out.drop i0).take cnt :=
+  toWindow_eq f start dt n v k i0 cnt m hdt hk hn
+
+example : toWindow Reduce.mean.apply 100 10 23 (fun i => (i : Rat)) 5 2 5 = [(220, 12), (270, 17)] := by decide +kernel
+example : toWindow Reduce.mean.apply 100 10 20 (fun i => (i : Rat)) 5 1 5 = [(170, 7), (220, 12)] := by decide +kernel
 
 /-- Non-vacuity of `to_eq_by` (23 samples, factor 5) and of `to_multiple_eq_by_dropLast`. -/
 example : downTo Reduce.mean.apply (.cont ⟨100, 10, (List.range 23).map fun (i : Nat) => (i : Rat)⟩) 50 (some .safe) (some true)
